@@ -25,8 +25,9 @@ fn expect_err(ctx: &mut Ctx, f: &Facts, what: &str, do_binary: bool, do_jax: boo
     ctx.exec();
     ctx.validated();
     match drive::build(f, Mode::Defaults) {
-        Err(e) if e.starts_with("build_with_defaults") => {}
-        Err(e) => ctx.violation("Builder::build_with_defaults", "fails in the wrong place or panics when a root term is missing", json!({"facts": f.to_json(), "missing": what, "observed": e})),
+        // "building fails with an error": which of the fallible Builder calls raises it is not fixed
+        Err(e) if !e.starts_with("panic:") => {}
+        Err(e) => ctx.violation("Builder::build_with_defaults", "panics instead of returning an error when a root term is missing", json!({"facts": f.to_json(), "missing": what, "observed": e})),
         Ok(_) => ctx.violation("Builder::build_with_defaults", "succeeds although a root term is missing", json!({"facts": f.to_json(), "missing": what, "rust": f.to_rust(true)})),
     }
     if do_binary {
@@ -58,13 +59,15 @@ pub fn run(ctx: &mut Ctx) {
     ctx.rule = "case = (labelled DAG over HP:1, HP:118 and k further terms, id pool placing the further ids below/between/above 118); also with a root id replaced by an unrelated id; distinct by construction; non-trivial = at least two is_a links".into();
     ctx.assumptions = vec![
         "acyclic graphs; the roots are identified by their ids 1 and 118, whatever their position in the graph".into(),
-        "setter sequences: 'built with defaults' = both public setters were called, in either order, also after the lists were cleared; after a single setter its own list must already be the documented default (set_default_categories documents its result without reference to the modifier list; set_default_modifier only needs HP:0000001)".into(),
+        "setter sequences: 'built with defaults' = both public setters were called, in either order, also after the lists were cleared; after a single setter its own list must already be the documented default (set_default_categories documents its result without reference to the modifier list); with HP:0000118 missing set_default_modifier may refuse or install the children of HP:0000001".into(),
     ];
     let max_n = if ctx.tier.thorough() { 6 } else { 5 };
+    // text loaders and Ontology::clone are the expensive paths: one term more in the thorough tier
+    let (jax_n, clone_n) = if ctx.tier.thorough() { (4, 4) } else { (3, 3) };
     for n in 2..=max_n {
         let dags = all_dags(n);
         let pools: Vec<[u32; 6]> = POOLS.iter().copied().filter(|p| p[..n].contains(&118)).collect();
-        ctx.space(&format!("defaults/D{n}"), &format!("{} labelled DAGs x {} id pools; Builder::build_with_defaults (all), from_bytes v3 (n<=4), from_standard (n<=3); each also with HP:1 / HP:118 / both missing", dags.len(), pools.len()));
+        ctx.space(&format!("defaults/D{n}"), &format!("{} labelled DAGs x {} id pools; Builder::build_with_defaults (all; n<={clone_n}: also observed on a clone after the original was dropped), from_bytes v3+v1 (n<=4; each term in turn, the two roots included, flagged obsolete with a replacement), from_standard and from_standard_transitive (n<={jax_n}); each also with HP:1 / HP:118 / both missing", dags.len(), pools.len()));
         for d in &dags {
             for pool in &pools {
                 if !ctx.take() {
@@ -84,6 +87,12 @@ pub fn run(ctx: &mut Ctx) {
                     // the obsolete flag / a replacement on any term must not change the classification
                     for k in 0..n {
                         if f.terms[k].id == 1 || f.terms[k].id == 118 {
+                            // a root term that carries the obsolete flag and a replacement is still contained in the
+                            // ontology: the defaults are built from it as from any other term
+                            let mut h = f.clone();
+                            h.terms[k].obsolete = true;
+                            h.terms[k].replacement = Some(h.terms[(k + 1) % n].id);
+                            via_binary(ctx, &h, &EncOpts::v(3), "a root term flagged obsolete and replaced by the next term");
                             continue;
                         }
                         let mut g = f.clone();
@@ -96,14 +105,33 @@ pub fn run(ctx: &mut Ctx) {
                         h.terms[k].obsolete = true;
                         h.terms[k].replacement = Some(h.terms[(k + n - 1) % n].id);
                         via_binary(ctx, &h, &EncOpts::v(3), "one term flagged obsolete and replaced by the previous one");
-                        if n <= 3 {
+                        if n <= jax_n {
                             via_jax(ctx, &g, &JaxOpts::default(), false, "one term flagged obsolete, the next one replaced by it");
                         }
                     }
                 }
-                if n <= 3 {
+                if n <= jax_n {
                     via_jax(ctx, &f, &JaxOpts::default(), false, "canonical");
                     via_jax(ctx, &f, &JaxOpts::default(), true, "canonical (transitive loader)");
+                }
+                // a copy of the ontology, observed after the original is gone, classifies like the original
+                // (Ontology::clone copies the 80 MB id table: small graphs only)
+                if n <= clone_n {
+                    ctx.transitions(f.n_steps());
+                    match drive::build(&f, Mode::Defaults) {
+                        Err(e) => ctx.violation("Builder", "[builder] construction fails on valid facts", json!({"case": f.to_json(), "observed": e})),
+                        Ok(ont) => match crate::ctx::guard(|| {
+                            let copy = ont.clone();
+                            drop(ont);
+                            copy
+                        }) {
+                            Err(p) => ctx.violation("Ontology::clone", "[clone] panics", json!({"case": f.to_json(), "observed": p})),
+                            Ok(copy) => {
+                                let case = || json!({"facts": f.to_json(), "order": "canonical", "observed_on": "ontology.clone(), after the original was dropped"});
+                                drive::check_against_model(ctx, &copy, &r, Mode::Defaults, "clone", &case);
+                            }
+                        },
+                    }
                 }
                 // a root missing: same graph, the root's id replaced by an unrelated one
                 if n <= 4 || ctx.tier.thorough() {
@@ -125,7 +153,7 @@ pub fn run(ctx: &mut Ctx) {
                                 }
                             }
                         }
-                        expect_err(ctx, &g, what, n <= 4, n <= 3);
+                        expect_err(ctx, &g, what, n <= 4, n <= jax_n);
                     }
                 }
                 ctx.sample(|| json!({"dag": d.describe(), "ids": &pool[..n]}));
@@ -222,8 +250,10 @@ pub fn run(ctx: &mut Ctx) {
                                     }
                                     Op::Mod => {
                                         let ok = ont.set_default_modifier().is_ok();
-                                        if ok != has1 {
-                                            return Some(("Ontology::set_default_modifier".into(), if ok { "succeeds although HP:0000001 is missing".into() } else { "fails although HP:0000001 exists".into() }, format!("step {step} of {seq:?}")));
+                                        // HP:0000001 present, HP:0000118 missing: the statement only says that building
+                                        // with defaults fails; this setter alone may refuse too, or install the children of HP:1
+                                        if ok != has1 && !(has1 && !has118) {
+                                            return Some(("Ontology::set_default_modifier".into(), if ok { "succeeds although HP:0000001 is missing".into() } else { "fails although both root terms exist".into() }, format!("step {step} of {seq:?}")));
                                         }
                                         if ok {
                                             cur_mod = def_mod.clone();
@@ -311,6 +341,106 @@ pub fn run(ctx: &mut Ctx) {
             }
             ctx.sample(|| json!({"shape": what, "n_terms": n}));
         }
+    }
+    // ---- the modifier side at size: every large shape hangs below HP:118, so is_modifier() is true only for
+    // terms with a dozen ancestors and the modifier list never has more than ten entries. Here (a) the same
+    // shapes hang below a modifier root (their node 1 renumbered HP:119 resp. HP:9999999, HP:118 a childless child
+    // of HP:1): every deep term is a modifier whose only category is that root; (b) HP:1 has 29..40 children besides HP:118 (a
+    // modifier list beyond the inline capacity 30 of an id group), each with a child, and one term sits below
+    // all of these and below a phenotype branch
+    {
+        let mut family: Vec<(Facts, String)> = vec![];
+        for (base, what) in super::common::large_family() {
+            // the modifier root gets the second smallest id of the ontology (HP:119) in the shapes whose ids ascend
+            // with the depth and the largest one (HP:9999999) in the others: in the sorted ancestor list of a deep
+            // term it is the second resp. the last entry
+            let m: u32 = if what.contains("smaller ids") { 9_999_999 } else { 119 };
+            let mut f = base.clone();
+            for t in f.terms.iter_mut() {
+                if t.id == 118 {
+                    t.id = m;
+                }
+            }
+            for e in f.edges.iter_mut() {
+                if e.0 == 118 {
+                    e.0 = m;
+                }
+                if e.1 == 118 {
+                    e.1 = m;
+                }
+            }
+            f.terms.push(Facts::term(118, "Phenotypic abnormality"));
+            f.edges.push((118, 1));
+            family.push((f, format!("{what}; below modifier root HP:{m} instead of HP:118")));
+        }
+        let n_renumbered = family.len();
+        for m in [29usize, 30, 31, 32, 40] {
+            for reversed in [false, true] {
+                let root = |k: usize| -> u32 { if reversed { 9000 - k as u32 } else { 1000 + k as u32 } };
+                let below = |k: usize| -> u32 { if reversed { 8000 - k as u32 } else { 2000 + k as u32 } };
+                let mut f = Facts::default();
+                f.version = (2024, 2, 29);
+                f.terms.push(Facts::term(1, "All"));
+                f.terms.push(Facts::term(118, "Phenotypic abnormality"));
+                f.edges.push((118, 1));
+                for (id, name) in [(300u32, "P"), (301, "Q")] {
+                    f.terms.push(Facts::term(id, name));
+                    f.edges.push((id, 118));
+                }
+                for k in 0..m {
+                    let (b, g) = (root(k), below(k));
+                    f.terms.push(Facts::term(b, &format!("B{k}")));
+                    f.terms.push(Facts::term(g, &format!("G{k}")));
+                    f.edges.push((b, 1));
+                    f.edges.push((g, b));
+                }
+                // x below every branch and below phenotype branch P, y below the first branch only, z below Q only
+                f.terms.push(Facts::term(5000, "X"));
+                for k in 0..m {
+                    f.edges.push((5000, below(k)));
+                }
+                f.edges.push((5000, 300));
+                f.terms.push(Facts::term(5001, "Y"));
+                f.edges.push((5001, below(0)));
+                f.terms.push(Facts::term(5002, "Z"));
+                f.edges.push((5002, 301));
+                family.push((f, format!("HP:1 with HP:118 and {m} further children, each with one child; one term below all {m} branches and below a child of HP:118{}", if reversed { " (later branches have smaller ids)" } else { "" })));
+            }
+        }
+        ctx.space("defaults/large-modifier-branches", &format!("{} large shapes hanging below a modifier root (node 1 renumbered HP:119, or HP:9999999 where descendants have smaller ids; HP:118 a childless child of HP:1) and {} shapes with 29, 30, 31, 32, 40 top-level branches besides HP:118 (two id directions) x (ascending | descending | inside-out supply order) via Builder::build_with_defaults and from_bytes v3: modifier roots, categories, is_modifier and per-term categories of every term", n_renumbered, family.len() - n_renumbered));
+        for (base, what) in &family {
+            if !ctx.take() {
+                continue;
+            }
+            ctx.state();
+            ctx.nontrivial();
+            let r = RefOnt::derive(base);
+            let n = base.terms.len();
+            for (order, oname) in super::common::large_orders(n).into_iter().filter(|(_, name)| !name.starts_with("rotated") && !name.starts_with("even")) {
+                let f = Facts { terms: crate::space::apply_perm(&base.terms, &order), ..base.clone() };
+                via_builder(ctx, &f, &r, Mode::Defaults, oname);
+                via_binary(ctx, &f, &EncOpts::v(3), oname);
+            }
+            ctx.sample(|| json!({"shape": what, "n_terms": n}));
+        }
+    }
+    // ---- four- and five-term shapes through the text loaders (the exhaustive text path stops at three terms in
+    // the quick tier): HP:1, HP:118, modifier root HP:5 and one or two free terms with every parent choice over
+    // {118, 5, earlier free term} - a term below a modifier root AND a phenotype branch, flagged terms, records
+    {
+        let fam: Vec<(Facts, String)> = super::common::family_e(1, 2, &[4000, 7]).into_iter().filter(|(f, what)| f.terms.len() == 4 || what.contains("no flags")).collect();
+        ctx.space("jax/family-E", &format!("{} fact sets of family E (k = 1: every parent subset x three flag patterns; k = 2: every parent choice, no flags) x from_standard and from_standard_transitive", fam.len()));
+        for (f, what) in &fam {
+            if !ctx.take() {
+                continue;
+            }
+            ctx.state();
+            ctx.nontrivial();
+            via_jax(ctx, f, &JaxOpts::default(), false, what);
+            via_jax(ctx, f, &JaxOpts::default(), true, what);
+            ctx.sample(|| json!({"shape": what}));
+        }
+        jax::cleanup();
     }
     // ---- sequences of ontologies built one after the other at the same address
     super::common::ontology_sequences(ctx, "defaults", Mode::Defaults, &mut super::common::obs_oracle(Mode::Defaults));
